@@ -78,8 +78,12 @@ ProjFor(s, q) ==
   THEN SelectSeq(q, LAMBDA m : Class(m) = "sess" /\ "sess" \in Classes)
   ELSE Proj(q)
 
+\* offenders of hostile scenarios (and their partners) join with the attribute
+\* color = "tainted": what they receive is not observed (havoc confined to them)
+Tainted(s) == s \in DOMAIN sess' /\ sess'[s].attrs.color = "tainted"
+
 Matches(o, r) ==
-  LET names == DOMAIN o \cup {r.out[i].s : i \in DOMAIN r.out} IN
+  LET names == {s \in DOMAIN o \cup {r.out[i].s : i \in DOMAIN r.out} : ~Tainted(s)} IN
   \A s \in names :
      LET a == ProjFor(s, SpecFor(o, s))
          b == ProjFor(s, LoggedFor(r, s))
@@ -99,6 +103,14 @@ Live(s) == s \in DOMAIN sess /\ sess[s].st = "joined"
 
 FreshIn(S) == (CHOOSE n \in 100001..100200 : n \notin S)
 Pick(b, S) == IF b # 0 THEN b ELSE FreshIn(S)
+
+\* a hostile message: nothing is asserted about its sender; senders whose
+\* transport the router closed are gone; nobody else is affected
+RECURSIVE HostileFx(_, _)
+HostileFx(S, closed) ==
+  IF closed = <<>> THEN S
+  ELSE LET s == Head(closed) IN
+       HostileFx(IF s \in Joined(S) THEN LeaveFx(S, s, "lost", "") ELSE S, Tail(closed))
 
 ApplyAllowed(i, b) ==
   CASE i.op = "skip" -> Commit(Cur)
@@ -141,6 +153,7 @@ ApplyAllowed(i, b) ==
     [] i.op = "leave"    -> Live(i.s) /\ Commit(LeaveFx(Cur, i.s, i.how, ""))
     [] i.op = "advance"  -> Commit(AdvanceFx(Cur, i.ms))
     [] i.op = "rmrealm"  -> Commit(CloseRealmFx(Cur))
+    [] i.op = "hostile"  -> Commit(HostileFx(Cur, b.closed))
     [] i.op = "metacall" ->
          /\ Live(i.s)
          /\ \E pick \in (IF b.reg # 0 THEN {b.reg} ELSE {regs[k].id : k \in BestRegs(Cur, i.uri2)} \cup {0}) :
